@@ -232,7 +232,34 @@ def weights(draw, g, regime):
         ws = [f"x{i + 1}" for i in range(len(rules))]
     else:
         style = draw(st.integers(0, 9))
-        if style < 8:
+        if style in (6, 7):
+            # PCFG style: the weights of the rules of one head sum to exactly one wherever the head
+            # has a terminal-only rule, and sum_r w_r * n_r <= 3/4 (subcritical, so the fixed point
+            # iteration still contracts); heads without a terminal-only rule get dominated weights.
+            # Total weight is < 1 exactly when mass leaks into an unproductive nonterminal.
+            by = {}
+            for i, (h, b) in enumerate(rules):
+                by.setdefault(h, []).append(i)
+            ws = [None] * len(rules)
+            for h, idx in by.items():
+                u = {i: Fraction(draw(st.sampled_from([1, 2, 3]))) for i in idx}
+                rec = [i for i in idx if nt_count(rules[i][1], V) > 0]
+                ter = [i for i in idx if i not in rec]
+                if not ter:
+                    for i in idx:
+                        ws[i] = F(Fraction(1, 2) / (len(idx) * max(1, nt_count(rules[i][1], V))))
+                    continue
+                s = draw(st.sampled_from([Fraction(1), Fraction(1, 2)]))
+                den = sum(u[i] * nt_count(rules[i][1], V) for i in rec)
+                mass = Fraction(0)
+                for i in rec:
+                    w = Fraction(3, 4) * s * u[i] / den
+                    ws[i] = F(w)
+                    mass += w
+                ut = sum(u[i] for i in ter)
+                for i in ter:
+                    ws[i] = F((1 - mass) * u[i] / ut)
+        elif style < 8:
             # convergence by construction (DESIGN 4.2)
             c = draw(st.sampled_from([Fraction(2), Fraction(4, 3)]))
             count = {}
